@@ -37,6 +37,14 @@ static void one(const std::string& value, bool negative, const std::vector<std::
 	vp_conf_value = value;
 	try { hsm->prepareSupportedMecahnisms(t); }
 	catch (...) { if (!OUT(escaped)) { OUT(first_bad) = OUT(inputs); printf("VP_ENUM_FAIL exception escapes for slots.mechanisms = '%s'\n", value.c_str()); } OUT(escaped)++; return; }
+	// a name with blanks around it may legitimately be read either way (as an unknown name, or trimmed): for such values only
+	// "no exception escapes" is checked
+	for (size_t i = 0; i < items.size(); i++)
+	{
+		const std::string& it = items[i];
+		size_t a = it.find_first_not_of(" \t"), b = it.find_last_not_of(" \t");
+		if (a != std::string::npos && (a != 0 || b != it.size() - 1)) { hsm->supportedMechanisms.~list(); ::operator delete((void*)hsm); return; }
+	}
 	// specification: the configured list is (positive) exactly the valid names given, in order, or (negative) the whole table without them
 	std::vector<CK_MECHANISM_TYPE> named;
 	for (size_t i = 0; i < items.size(); i++) { CK_MECHANISM_TYPE m; if (is_valid(items[i], m)) named.push_back(m); }
